@@ -10,7 +10,7 @@ use crate::drivers::{self, Final};
 use crate::engine::{replay_from_file, show_bytes, CheckResult, Ctx, Failure, Obs};
 use crate::fail;
 use crate::inputs::{input_strategy, Input};
-use crate::source::{errkind_strategy, feed_strategy, ErrKind, Feed, FAULT_MSG};
+use crate::source::{errkind_strategy, ErrKind, Feed, FAULT_MSG};
 
 pub fn def() -> PropDef {
     PropDef {
@@ -130,10 +130,10 @@ pub fn check(c: &Case, obs: &mut Obs) -> CheckResult {
             }
             match &f.fin {
                 Final::Io { kind, msg } => {
-                    if *kind != format!("{:?}", c.kind.kind()) || !msg.contains(FAULT_MSG) {
+                    if *kind != format!("{:?}", c.kind.kind()) || !msg.contains(FAULT_MSG) || !msg.contains(crate::source::OWN_VALUE_TAG) {
                         fail!(
                             format!("C04:{p}:wrong-io-error"),
-                            "{}: reported I/O error {kind}: {msg} is not the source's error",
+                            "{}: reported I/O error {kind}: {msg} is not the error value the source returned (kind, text and payload are compared)",
                             describe()
                         );
                     }
@@ -185,7 +185,7 @@ pub fn check(c: &Case, obs: &mut Obs) -> CheckResult {
 
 fn run(ctx: &Ctx) {
     let n = ctx.share(ctx.tier.pick(80_000, 12_000_000));
-    let strat = (input_strategy(6, false), feed_strategy(), errkind_strategy())
+    let strat = (input_strategy(6, false), crate::source::parser_feed_strategy(), errkind_strategy())
         .prop_filter_map("input too long", |(input, feed, kind)| {
             if input.bytes.len() > 400 {
                 None
